@@ -443,7 +443,8 @@ def run_case(case_spec):
             if case_spec.get("plugin"):
                 _run_plugin(case_spec, rec)
             else:
-                _run_cli(case_spec, rec)
+                for _ in range(int(case_spec.get("repeat") or 1)):
+                    _run_cli(case_spec, rec)
             rec["outcome"] = "ok"
         except SystemExit as e:
             rec["outcome"] = "systemexit"
